@@ -249,7 +249,7 @@ PROPS["C09"] = {
     "harness": {"kind": "overlay", "pkg": "pkg/evmclient", "pkgname": "evmclient",
                 "files": ["evmclient/stub_test.go", "evmclient/c09_test.go"], "test": "TestVerifC09", "race": True},
     "agree": _c09_agree,
-    "level_text": "Theorems over arbitrary interleavings of the atomic steps (submission, watch registration, per-element batch replies for any snapshot, shutdown, drain, client observation): an invariant (a waiter listed in a row is allocated, unanswered and belongs to that row only; delivered waiter ids are duplicate-free) holds in every reachable state, hence no waiter ever has two outcomes and the monitor never sends on a closed channel (no crash); a receipt goes only to waiters of that very hash; 'cancelled' only for a waiter whose nonce is below the confirmed nonce of the snapshot that found no receipt for its hash; 'closed' only after shutdown began; a reply resolves its whole row in that step; after the drain nobody is left waiting and new waiters are refused; the pending list is a subset of what was submitted and resolved transactions leave it once observed. Tied to the real txmonitor + EvmClient with the receipt batch call under a gate (watch/round/close forced in all orders incl. reply in flight during Close, watch during an in-flight reply, a watcher that has read the shutdown flag and is then held while Close runs, a waiter registering while the outcome of that very transaction is being handed out, rounds larger than one receipt batch, CancelTx with an accepted and with a rejected replacement), over both transports: function mock and a real in-process go-ethereum JSON-RPC server where a missing receipt is JSON null; the harness logs the realised atomic steps and the model replays them. Rounds are also driven by the monitor's own ticker after every receipt query of a round failed: new blocks with an idle checker and unresolved transactions below the confirmed nonce must lead to a query (a `missed-check` step is a violation).",
+    "level_text": "Theorems over arbitrary interleavings of the atomic steps (submission, watch registration, per-element batch replies for any snapshot, shutdown, drain, client observation): an invariant (a waiter listed in a row is allocated, unanswered and belongs to that row only; delivered waiter ids are duplicate-free) holds in every reachable state, hence no waiter ever has two outcomes and the monitor never sends on a closed channel (no crash); a receipt goes only to waiters of that very hash; 'cancelled' only for a waiter whose nonce is below the confirmed nonce of the snapshot that found no receipt for its hash; 'closed' only after shutdown began; a reply resolves its whole row in that step; after the drain nobody is left waiting and new waiters are refused; the pending list is a subset of what was submitted and resolved transactions leave it once observed. Tied to the real txmonitor + EvmClient with the receipt batch call under a gate (watch/round/close forced in all orders incl. reply in flight during Close, watch during an in-flight reply, a watcher that has read the shutdown flag and is then held while Close runs, a waiter registering while the outcome of that very transaction is being handed out, rounds larger than one receipt batch, CancelTx with an accepted and with a rejected replacement), over both transports: function mock and a real in-process go-ethereum JSON-RPC server where a missing receipt is JSON null; the harness logs the realised atomic steps and the model replays them. Rounds are also driven by the monitor's own ticker after every receipt query of a round failed: new blocks with an idle checker and unresolved transactions below the confirmed nonce must lead to a query (a `missed-check` step is a violation; judged by evaluating the watch-loop model). The watch loop itself (wake-up, block query, confirmed-nonce query, hand-off or drop) is a second model: for any sequence of wake-ups and node answers without a shutdown the loop stays alive, a failed block or nonce query changes nothing, a newer block seen with an idle checker (or a new waiter) always triggers a check carrying that iteration's answers; tied by plan steps in which the block query fails once with a plain error or one wrapping a context error while nobody shut the monitor down.",
     "level_note": "Trusted: Lean kernel; harness (trace validation); the 500 ms ticker and the 10 s Close timeout are real time; liveness is proved as 'a reply resolves its row' / 'the drain resolves everybody', not under the Go scheduler. A case that kills the test process is recognised by its marker line.",
     "nontrivial_rule": "distinct (transport, realised step list) pairs; non-trivial = at least one reply or drain reaching a registered waiter",
     "class_of": lambda c, r: "%s|%s" % (c["in"]["transport"], json.dumps(c["in"]["steps"])),
